@@ -56,12 +56,19 @@ AroundEmpty == {<<EmptyHeaders, b>> : b \in Honest} \cup {<<a, EmptyHeaders>> : 
                   \cup {<<Ping, EmptyHeaders, Ping>>, <<EmptyHeaders, EmptyHeaders, HeadersF(33, 33, 0)>>}
 StreamsQuick == Singles \cup AfterLead \cup SeqsOf(Core, 2) \cup Deep3 \cup AroundEmpty
 StreamsFull == Singles \cup Pairs \cup AfterLead \cup Deep \cup AroundEmpty
+\* probe (MC_Codec_probe_hoist.cfg, TimeoutPerChunk = FALSE): the model must tell the two
+\* placements of set_stream_timeout apart (NoDesync is expected to FAIL there)
+StreamsProbe == {<<Ping, Ping>>}
 
 \* Case generator: one line per stream with what the property demands of it.
 RECURSIVE StartsOf(_, _)
 StartsOf(s, i) == IF i > Len(s) THEN <<>> ELSE <<StartOf(s, i)>> \o StartsOf(s, i + 1)
+\* `silent`: the candidate boundaries at which the model lets the peer pause for longer than the
+\* header timeout (Silence); the harness places its 2.3-2.6 s pauses there and at offsets that
+\* satisfy the same predicate
 Case(s) == [frames |-> s, expect |-> ExpectedSeq(s), total |-> Total(s), starts |-> StartsOf(s, 1),
-            classes |-> [i \in 1..Len(s) |-> FrameClass(s[i])]]
+            classes |-> [i \in 1..Len(s) |-> FrameClass(s[i])],
+            silent |-> {c \in Cuts(s) : SilenceOK(s, c)}]
 EmitSpec == Init /\ [][FALSE]_vars
 Emit == PrintT(<<"CODECCASE", ToJson(Case(stream))>>)
 =========================================================================
